@@ -2,6 +2,7 @@ import OpdaProofs.Audit
 import OpdaProofs.NoisyBisect
 import OpdaProofs.NoisyLogic
 import OpdaProofs.NoisyReal
+import OpdaProofs.NoisyInv
 /-!
 # C07 — NoisyQuadratic quantile function inverts its cdf  *(proof of the bisection logic; accuracy conditional)*
 
@@ -100,6 +101,15 @@ theorem ppf_endpoints_noiseless_real (T : List (ℕ × List (Entry ℝ))) (ninf 
     (hp : pointMass (realFns T ninf pinf) d = false) (h : regime (realFns T ninf pinf) d = .noiseless) :
     ppf (realFns T ninf pinf) d 0 = d.a ∧ ppf (realFns T ninf pinf) d 1 = d.b :=
   Opda.Noisy.ppf_endpoints_noiseless_real T ninf pinf d hc hp h
+
+/-- **inverse clause, noiseless regime, exact arithmetic**: over `ℝ` the closed forms are exact inverses,
+`cdf (ppf q) = q` for every `q ∈ [0,1]`, both shapes, every `c ≥ 1` (`o < 1e-6 (b−a)`, which contains `o = 0`).
+In floating point the residual is rounding (measured every run, ≤ 1e-5 demanded). -/
+theorem cdf_ppf_noiseless_real (T : List (ℕ × List (Entry ℝ))) (ninf pinf : ℝ) (d : Params ℝ) (hab : d.a ≤ d.b)
+    (ho : 0 ≤ d.o) (hc : 0 < d.c) (hp : pointMass (realFns T ninf pinf) d = false)
+    (h : regime (realFns T ninf pinf) d = .noiseless) (q : ℝ) (hq0 : 0 ≤ q) (hq1 : q ≤ 1) :
+    cdf (realFns T ninf pinf) d (ppf (realFns T ninf pinf) d q) = q :=
+  Opda.Noisy.cdf_ppf_noiseless T ninf pinf d hab ho hc hp h q hq0 hq1
 
 /-! ### non-vacuity -/
 
